@@ -408,3 +408,5 @@ def check(case: dict[str, Any], rec: Any) -> None:
 
 
 FINDINGS: dict[str, Any] = {}
+
+LEVEL_NOTE += ' Rounds 13-14: set_power refused by the API for an inside power; pool tier through the real BatteryPool bounds stream.'
